@@ -756,7 +756,12 @@ func (tm *TaskMaster) forkPoint(p edge.PointMessage) {
 		_ = edge.Collect(p)
 	}
 
-	for _, edge := range tm.forks[emptyMeasurementKey] {
+	for task, edge := range tm.forks[emptyMeasurementKey] {
+		if _, ok := tm.forks[key][task]; ok {
+			// The task also subscribed to this specific measurement (or the
+			// measurement is empty) and has already received the point.
+			continue
+		}
 		_ = edge.Collect(p)
 	}
 
